@@ -1,5 +1,6 @@
 import RemocModel.Link.Inv
 import RemocModel.Props.C02
+import RemocModel.Link.Shared
 set_option linter.unusedSimpArgs false
 
 /-!
@@ -269,6 +270,47 @@ theorem ports_frame_nonempty (c : Cfg) (rest : List Nat) (held : Nat) (first : B
   simp only [List.length_take, List.length_nil] at hl
   have hlen : 0 < rest.length := List.length_pos_iff.mpr hne
   omega
+
+/-- **A stalled port never blocks the shared queue.**  Whatever the state of the two ports and of
+their receivers (in particular: the receiver of `q` consumes nothing), the sending dispatcher can
+forward the head of the shared event queue, and afterwards the queue is shorter: a slot that a port
+occupies is always released without any action of a receiver. -/
+theorem shared_queue_drains (cp cq : Cfg) (s : Shared) (h : s.evq ≠ []) :
+    ∃ s', sstep cp cq s .fwd = some s' ∧ s'.evq.length + 1 = s.evq.length := by
+  cases he : s.evq with
+  | nil => exact absurd he h
+  | cons x rest =>
+    obtain ⟨w, f⟩ := x
+    cases w <;> simp [sstep, he]
+
+/-- **A port's progress does not depend on the other port's receiver.**  Every step of port `p`
+that is enabled in a state is enabled in any state that differs only in port `q` — its receiver
+half, its credits, its queues (the shared queue contents being equal). -/
+theorem non_interference (cp cq : Cfg) (s s2 : Shared) (l : SLabel)
+    (hp : s2.p = s.p) (he : s2.evq = s.evq) (hc : s2.cap = s.cap)
+    (hl : match l with | .port w _ => w = false | .emit w => w = false | .fwd => False)
+    (hen : (sstep cp cq s l).isSome = true) : (sstep cp cq s2 l).isSome = true := by
+  cases l with
+  | fwd => simp at hl
+  | port w l' =>
+    simp only [] at hl; subst hl
+    cases l' <;> simp_all [sstep]
+  | emit w =>
+    simp only [] at hl; subst hl
+    simp only [sstep, hp, he, hc] at hen ⊢
+    split
+    · rename_i hlt
+      simp only [hlt, if_true] at hen
+      cases hs : step cp s.p .emit <;> simp_all
+    · rename_i hlt
+      simp [hlt] at hen
+
+/-- a port without credits does not even try to occupy a slot: `emit` needs held credits, and held
+credits are only obtained from the port's own pool -/
+theorem no_slot_without_credit (c : Cfg) (st : State) (x : Xfer) (hcur : st.s.cur = some x)
+    (hheld : st.s.held = 0) : step c st .emit = none := by
+  simp only [step, hcur]
+  cases x <;> simp [Xfer.ready, hheld]
 
 /-! ### non-vacuity -/
 
